@@ -15,7 +15,7 @@ Lemma recovered_shape a d v stk :
   exists pe, recovered a d v stk = EDef (a + 1) d ("panic: " ++ pv_msg v) (Some pe) false (stack_of d stk) /\
   as_first is_panic_error (recovered a d v stk) = Some pe /\
   match v with
-  | PVErr x => pe = EPanic a (err_msg x) 0 (Some x) /\ errors_is (recovered a d v stk) x = true
+  | PVErr x => pe = EPanic a (fmt_v x) 0 (Some x) /\ errors_is (recovered a d v stk) x = true
   | PVOther id s => pe = EPanic a s id None
   end.
 Proof.
